@@ -12,7 +12,7 @@
                                            value get_modified_time("metadata/<basename>") yields
                                            (None = it raised; the code then uses -1.0)
    exists("metadata/<name>") is membership of that path in the listing (objects only).
-   Not modelled: list_files itself raising (the code then returns None: "no version found").
+   Not modelled: list_files itself raising (the failure propagates out of refresh(); C14 covers it).
 
    Definitions only; proofs are in Proofs/HintProofs.v. *)
 From Coq Require Import ZArith NArith List Bool.
